@@ -99,3 +99,73 @@ theorem ngram_recOk (s : Text) (hv : ∀ c ∈ s, c.code < 0x110000) (minG maxG 
   exact key
 
 end TantivyModel.Tok
+
+namespace TantivyModel.Tok
+
+/-- a code point is at most 4 bytes: `k` code points further is at most `4k` bytes further -/
+theorem boundaries_getD_le (s : Text) : ∀ (o k : Nat), k < (boundariesFrom o s).length →
+    (boundariesFrom o s).getD k 0 ≤ o + 4 * k := by
+  induction s with
+  | nil =>
+    intro o k hk
+    simp only [boundariesFrom, List.length_cons, List.length_nil] at hk
+    have : k = 0 := by omega
+    subst this; simp [boundariesFrom]
+  | cons c s ih =>
+    intro o k hk
+    cases k with
+    | zero => simp [boundariesFrom]
+    | succ k =>
+      simp only [boundariesFrom, List.length_cons] at hk
+      simp only [boundariesFrom, List.getD_cons_succ]
+      have := ih (o + c.w) k (by omega)
+      have hw : c.w ≤ 4 := utf8Len_le _
+      omega
+
+theorem boundaries_gap_le (s : Text) : ∀ (o i k : Nat), i + k < (boundariesFrom o s).length →
+    (boundariesFrom o s).getD (i + k) 0 ≤ (boundariesFrom o s).getD i 0 + 4 * k := by
+  induction s with
+  | nil =>
+    intro o i k hk
+    simp only [boundariesFrom, List.length_cons, List.length_nil] at hk
+    have : i = 0 ∧ k = 0 := by omega
+    obtain ⟨rfl, rfl⟩ := this; simp
+  | cons c s ih =>
+    intro o i k hk
+    cases i with
+    | zero =>
+      have := boundaries_getD_le (c :: s) o k (by simpa using hk)
+      simpa [boundariesFrom] using this
+    | succ i =>
+      simp only [boundariesFrom, List.length_cons] at hk
+      have e : i + 1 + k = (i + k) + 1 := by omega
+      simp only [boundariesFrom, e, List.getD_cons_succ]
+      exact ih (o + c.w) i k (by omega)
+
+/-- no n-gram is longer than `4 · max_gram` bytes -/
+theorem ngram_token_len (s : Text) (hv : ∀ c ∈ s, c.code < 0x110000) (minG maxG : Nat)
+    (hmin : 0 < minG) (hle : minG ≤ maxG) (prefixOnly : Bool) :
+    ∀ t ∈ ngramTokens s minG maxG prefixOnly, t.to - t.from_ ≤ 4 * maxG := by
+  have hne : boundariesFrom 0 s ≠ [] := by cases s <;> simp [boundariesFrom]
+  have hall : stutterAll (frontiers s) minG maxG = ngramSpec (boundariesFrom 0 s) minG maxG := by
+    rw [frontiers_eq_boundaries s hv]
+    exact stutterAll_eq_spec _ minG maxG hmin hle hne
+  have hsub : (ngramOffsets s minG maxG prefixOnly).Sublist (ngramSpec (boundariesFrom 0 s) minG maxG) := by
+    unfold ngramOffsets
+    simp only [hall]
+    split
+    · exact List.takeWhile_sublist _
+    · exact List.Sublist.refl _
+  intro t ht
+  simp only [ngramTokens, List.mem_map] at ht
+  obtain ⟨p, hp, rfl⟩ := ht
+  have hp' := hsub.subset hp
+  unfold ngramSpec ngramRow at hp'
+  simp only [List.mem_flatMap, List.mem_range, List.mem_map, List.mem_range'_1] at hp'
+  obtain ⟨i, hi, k, ⟨hk1, hk2⟩, rfl⟩ := hp'
+  have := boundaries_gap_le s 0 i k (by omega)
+  simp only [mkToken]
+  have hk : k ≤ maxG := by omega
+  omega
+
+end TantivyModel.Tok
